@@ -41,6 +41,7 @@ class TLCResult:
         self.distinct = int(m[-1][1]) if m else 0
         self.invariant_violated = re.findall(r"Invariant (\w+) is violated", out)
         self.property_violated = ("Temporal properties were violated" in out or
+                                  re.search(r"Temporal property \w+ was violated", out) is not None or
                                   re.findall(r"Action property (\w+) is violated", out) != [])
         self.assume_failed = "Assumption" in out and "is false" in out
         self.deadlock = "Deadlock reached" in out
@@ -181,7 +182,7 @@ class Ctx:
         cfgp = os.path.join(wd, "%s__%s.cfg" % (module, name))
         with open(cfgp, "w") as f:
             f.write(cfg)
-        cmd = ["java", "-XX:+UseParallelGC", "-Xmx8g", "-cp", TLA_CP, "tlc2.TLC",
+        cmd = ["java", "-XX:+UseParallelGC", "-Xmx6g", "-cp", TLA_CP, "tlc2.TLC",
                "-metadir", os.path.join(wd, "meta"), "-noGenerateSpecTE",
                "-workers", str(workers), "-config", cfgp] + list(extra) + [module + ".tla"]
         e = dict(os.environ)
@@ -267,7 +268,7 @@ class Ctx:
             cfgp = os.path.join(wd, "judge.cfg")
             with open(cfgp, "w") as f:
                 f.write(cfg)
-            cmd = ["java", "-XX:+UseParallelGC", "-Xmx6g", "-Xss64m", "-cp", TLA_CP, "tlc2.TLC",
+            cmd = ["java", "-XX:+UseParallelGC", "-Xmx3g", "-Xss64m", "-cp", TLA_CP, "tlc2.TLC",
                    "-metadir", os.path.join(wd, "meta"), "-noGenerateSpecTE",
                    "-workers", str(workers), "-config", cfgp, mcmod + ".tla"]
             e = dict(os.environ)
